@@ -71,7 +71,9 @@ type PuppetSpec struct {
 	FailReadAt       int       // websocket fake: fail k-th ReadMessage
 	FailWriteAt      int       // websocket fake: fail k-th WriteMessage
 	Name             string
-	Unbuffered       bool // Local: a Peer implementation of the application with unbuffered channels in both directions
+	KeepAlive        time.Duration // websocket: keep-alive interval of the router-side peer (0: none); the puppet answers PINGs
+	NoPong           bool          // websocket: the puppet does not answer PINGs
+	Unbuffered       bool          // Local: a Peer implementation of the application with unbuffered channels in both directions
 }
 
 // chanPeer is an application-provided wamp.Peer (Router.Attach and
@@ -498,6 +500,10 @@ func (p *Puppet) readerWS() {
 }
 
 func (p *Puppet) recordWS(fr WSFrame) {
+	if fr.Type == WSPing && !p.Spec.NoPong {
+		// a websocket endpoint answers PING with PONG carrying the same data
+		go p.ws.ToRouter(WSFrame{WSPong, append([]byte(nil), fr.Data...)}, p.abort)
+	}
 	o := Obs{Frame: fr.Type, Raw: fr.Data}
 	if fr.Type == WSText || fr.Type == WSBinary {
 		m, err := p.ser.Deserialize(fr.Data)
@@ -581,7 +587,7 @@ func (w *World) AddPuppet(spec PuppetSpec) *Puppet {
 		if spec.WSPayloadType != 0 {
 			ptype = spec.WSPayloadType
 		}
-		peer := transport.NewWebsocketPeer(p.ws, spec.Kind.Serializer(), ptype, w.Log, 0, qsize)
+		peer := transport.NewWebsocketPeer(p.ws, spec.Kind.Serializer(), ptype, w.Log, spec.KeepAlive, qsize)
 		go func() {
 			err := w.Router.AttachClient(peer, spec.TransportDetails)
 			p.mu.Lock()
